@@ -413,9 +413,82 @@ def r_schema(ctx, model):
     ctx.floor("shipped settings files", len(files), 2)
 
 
+class _Stop(Exception):
+    pass
+
+
+def r_validated_on_load(ctx, model):
+    """every call of read_config in the package validates: it passes validate=<true constant> or relies on a default that is true"""
+    import ast as _ast
+    from ..model import dotted_name as _dn, DEAD_MODULES as _dead
+    f = model.func(f"{CFG}:read_config")
+    params = [a.arg for a in f.args.args]
+    defaults = dict(zip(reversed(params), reversed(f.args.defaults)))
+    dflt = defaults.get("validate")
+    default_true = isinstance(dflt, _ast.Constant) and dflt.value is True
+    n = 0
+    for mname, mod in sorted(model.mods.items()):
+        if mname in _dead or mname == CFG:
+            continue
+        for q, g in mod.funcs.items():
+            for c in _ast.walk(g):
+                if isinstance(c, _ast.Call) and (_dn(c.func) or "").split(".")[-1] == "read_config":
+                    n += 1
+                    arg = next((kw.value for kw in c.keywords if kw.arg == "validate"), c.args[1] if len(c.args) > 1 else None)
+                    ok = default_true if arg is None else (isinstance(arg, _ast.Constant) and bool(arg.value))
+                    ctx.check(ok, f"{mname}:{q} loads its configuration with validation", model.where(f"{mname}:{q}", c), expected="read_config(path) with validate defaulting to True, or validate=True",
+                              found=f"validate = {'default ' + (src(dflt) if dflt is not None else '<none>') if arg is None else src(arg)}",
+                              explanation="a configuration is loaded without being validated against the packaged schema: a missing section, a wrongly typed or out-of-range "
+                                          "setting or an unknown interpolator is no longer rejected", key=f"load.validate.{q}")
+    ctx.floor("read_config call sites", n, 1)
+
+
+def r_qha_settings(ctx, model):
+    """the settings handed to the QHA layer = the library's defaults overridden by every qha setting of the effective configuration"""
+    from ..sym import Opaque
+    ref = "cij.core.qha_adapter:QHACalculatorAdapter._load_qha_calculator"
+    f = model.func(ref)
+    w = model.where(ref, f)
+    defaults = {"NT": "LIB_NT", "DT": "LIB_DT", "P_MIN": "LIB_PMIN", "order": "LIB_order", "static_only": "LIB_static"}
+    user = {"NT": "USER_NT", "T_MIN": "USER_TMIN", "order": "USER_order"}
+    lib_defaults = marker(defaults)
+    cap = {}
+
+    def ctor(ev, a, k):
+        cap["settings"] = a[-1] if a else k.get("settings")
+        raise _Stop()
+
+    def copy_(ev, a, k):
+        v = a[0]
+        if not isinstance(v, DictV):
+            raise AnalysisError("copy of something that is not the settings dictionary")
+        return DictV(dict(v.d))
+
+    intr = {"copy.copy": copy_, "copy.deepcopy": copy_}
+    ev = Ev(model, {("cij.core.qha_adapter:QHACalculator", "__new__"): ctor}, intr, ctx=ctx)
+    ev.ext_values = {"qha.settings.DEFAULT_SETTINGS": lib_defaults, "qha.calculator.DEFAULT_SETTINGS": lib_defaults}
+    try:
+        ev.call_def(f, model.mods["cij.core.qha_adapter"], ref, [marker(user), Opaque("qha_input")], {})
+    except _Stop:
+        pass
+    got = cap.get("settings")
+    want = dict(defaults)
+    want.update(user)
+    ok = isinstance(got, DictV) and unmark(got) == want
+    ctx.check(ok, "QHACalculator receives the library defaults overridden by the user's qha settings", w, expected=str(want),
+              found=str(unmark(got)) if isinstance(got, DictV) else repr(got),
+              explanation="the qha settings of the effective configuration (NT, DT, P_MIN, DELTA_P, NTV, order, ...) do not all reach the QHA calculator, or library "
+                          "defaults override them: the calculation runs on other grids than the ones requested", key="qha.settings")
+    ctx.check(unmark(lib_defaults) == defaults, "the library's default settings are not modified", w, expected=str(defaults), found=str(unmark(lib_defaults)),
+              explanation="the user's settings are merged into qha's own DEFAULT_SETTINGS object: every later calculation in the process starts from them",
+              key="qha.settings.defaults-untouched")
+
+
 RULES = [
     ("R16.1-3", "merge decision table, union domain, purity, idempotence (partial evaluation on marker dictionaries)", r_merge),
     ("R16.4", "read_config suffix dispatch and validation must-pass-through", r_loader),
     ("R16.4b", "apply_default_config argument order and packaged default; validate_config wiring", r_defaults),
+    ("R16.4c", "every configuration load in the package validates (call-site argument or default)", r_validated_on_load),
+    ("R16.7", "the effective qha settings reach the QHA calculator (library defaults overridden by the user's)", r_qha_settings),
     ("R16.5-6", "schema constraints/enums as data; shipped default and example files validate", r_schema),
 ]
